@@ -1013,6 +1013,9 @@ pub fn guard(um: &UserModel, op: &Op, profile: Profile) -> Option<&'static str> 
                 return Some("input-into-hidden-row");
             }
         }
+        Op::NameUpdate { .. } if model.get_locale() != "en" => {
+            return Some("name-update-in-non-en-locale");
+        }
         Op::NameNew { formula, .. } | Op::NameUpdate { formula, .. } => {
             match formula.split_once('!') {
                 Some((sheet, _)) => {
@@ -1055,7 +1058,22 @@ pub fn guard(um: &UserModel, op: &Op, profile: Profile) -> Option<&'static str> 
                     return Some("autofill-on-sheet-with-links");
                 }
             }
+            // listed finding (C02): redo / replicas re-type auto-filled cells, which infers a
+            // number format from formatted precedents that the original fill did not apply
+            for ws in &model.workbook.worksheets {
+                for rd in ws.sheet_data.values() {
+                    for cell in rd.values() {
+                        let idx = cell.get_style();
+                        if let Some(xf) = model.workbook.styles.cell_xfs.get(idx as usize) {
+                            if xf.num_fmt_id != 0 {
+                                return Some("autofill-with-formatted-cells");
+                            }
+                        }
+                    }
+                }
+            }
         }
+
         Op::DeleteSheet(s) => {
             let sh = res_sheet(um, *s);
             if let Some(ws) = model.workbook.worksheets.get(sh as usize) {
